@@ -1,10 +1,255 @@
 import Driver.Common
-/-! C06 driver (stub: answers bad-op until the property's model is wired in). -/
-open Driver
+import Lean.Data.Json
+import Sourmash.Model.Json
+import Sourmash.Spec.SigFormat
+/-! C06 driver.  Request grammar: see `harness/src/bin/c06.rs`.  The JSON *text* in a request line is read
+with `Lean.Json.parse` (an independent reader with exact integers) and converted to the abstract tree the
+model is about; object key order is lost by `Lean.Json`, so trees are compared modulo key order (the order
+is cross-checked by `translator/c06.py` against `harness c06 dump`). -/
+open Driver SigJson
+
+namespace C06
+
+/-! ### hex / strings -/
+
+def unhexBytes (s : String) : ByteArray := Id.run do
+  if s == "-" then return ByteArray.empty
+  let mut out := ByteArray.emptyWithCapacity (s.length / 2)
+  let mut hi : Option Nat := none
+  for c in s.toList do
+    match hi with
+    | none => hi := some (hexVal c)
+    | some h =>
+      out := out.push (UInt8.ofNat (h * 16 + hexVal c))
+      hi := none
+  return out
+
+def toStr (s : String) : Str := s.toList.map Char.toNat
+def ofStr (s : Str) : String := String.ofList (s.map Char.ofNat)
+
+def unhexStr (s : String) : Str :=
+  match String.fromUTF8? (unhexBytes s) with
+  | some t => toStr t
+  | none => []
+
+def hexStr (s : Str) : String :=
+  let b := (ofStr s).toUTF8
+  if b.size == 0 then "-" else
+  String.ofList (b.toList.flatMap fun x => [hexDigit (x.toNat / 16), hexDigit (x.toNat % 16)])
+
+def optOf (s : String) : Option Str := if s == "~" then none else some (unhexStr s)
+def hexOpt : Option Str → String
+  | none => "~"
+  | some s => hexStr s
+
+def hexNat (s : String) : Nat := s.toList.foldl (fun a c => a * 16 + hexVal c) 0
+def hex16 (n : Nat) : String :=
+  String.ofList ((List.range 16).map fun i => hexDigit ((n / 16 ^ (15 - i)) % 16))
+
+/-! ### sigspec -/
+
+def molOf (s : String) : Mol :=
+  if s == "dna" then .dna else if s == "protein" then .protein else if s == "dayhoff" then .dayhoff
+  else if s == "hp" then .hp else .custom (unhexStr (s.drop 1).toString)
+
+def showMol : Mol → String
+  | .dna => "dna" | .protein => "protein" | .dayhoff => "dayhoff" | .hp => "hp"
+  | .custom s => "x" ++ hexStr s
+
+def sketchOf (s : String) : Sketch :=
+  match s.splitOn ":" with
+  | ["h", p, q, k, regs] => .hll ((unhexBytes regs).toList.map UInt8.toNat) p.toNat! q.toNat! k.toNat!
+  | [kind, num, ksize, seed, mh, mol, mins, ab, md5] =>
+    let m : MinHash := { num := num.toNat!, ksize := ksize.toNat!, seed := seed.toNat!, maxHash := mh.toNat!,
+                         mol := molOf mol, mins := natList mins,
+                         abunds := if ab == "~" then none else some (natList ab),
+                         md5 := unhexStr (md5.drop 1).toString }
+    if kind == "t" then .tree m else .vec m
+  | _ => .hll [] 0 0 0
+
+/-- `letter = none`: hide the container type (`m`) -/
+def showSketch (hide : Bool) : Sketch → String
+  | .hll regs p q k => s!"h:{p}:{q}:{k}:" ++ hex (regs.map UInt8.ofNat)
+  | .vec m => go (if hide then "m" else "v") m
+  | .tree m => go (if hide then "m" else "t") m
+where go (l : String) (m : MinHash) : String :=
+  s!"{l}:{m.num}:{m.ksize}:{m.seed}:{m.maxHash}:{showMol m.mol}:{showNats m.mins}:" ++
+    (match m.abunds with | none => "~" | some a => showNats a) ++ ":c" ++ hexStr m.md5
+
+def sigOf (s : String) : Signature :=
+  match s.splitOn ";" with
+  | [c, e, h, f, n, l, v, sk] =>
+    { cls := unhexStr c, email := unhexStr e, hashFunction := unhexStr h, filename := optOf f, name := optOf n,
+      license := unhexStr l, version := hexNat v,
+      sketches := if sk == "-" then [] else (sk.splitOn "|").map sketchOf }
+  | _ => default
+
+def showSig (hide : Bool) (s : Signature) : String :=
+  ";".intercalate [hexStr s.cls, hexStr s.email, hexStr s.hashFunction, hexOpt s.filename, hexOpt s.name,
+    hexStr s.license, hex16 s.version,
+    if s.sketches.isEmpty then "-" else "|".intercalate (s.sketches.map (showSketch hide))]
+
+def listOf (s : String) : List Signature := if s == "-" then [] else (s.splitOn "+").map sigOf
+def showList (hide : Bool) (l : List Signature) : String :=
+  if l.isEmpty then "-" else "+".intercalate (l.map (showSig hide))
+
+def showErr : Err → String
+  | .serde => "err SerdeError"
+  | .niffler => "err NifflerError"
+  | .panic => "PANIC"
+
+def showRes (hide : Bool) : Except Err (List Signature) → String
+  | .ok l => showList hide l
+  | .error e => showErr e
+
+/-! ### `Lean.Json` → the abstract tree -/
+
+partial def ofLean : Lean.Json → Json
+  | .null => .null
+  | .bool b => .bool b
+  | .num n =>
+    if n.exponent == 0 && n.mantissa ≥ 0 then .num n.mantissa.toNat
+    else .flt n.toFloat.toBits.toNat
+  | .str s => .str (toStr s)
+  | .arr a => .arr (a.toList.map ofLean)
+  | .obj kvs => .obj (kvs.foldl (fun acc k v => acc ++ [(toStr k, ofLean v)]) [])
+
+def strLt : Str → Str → Bool
+  | [], [] => false
+  | [], _ => true
+  | _, [] => false
+  | a :: s, b :: t => a < b || (a == b && strLt s t)
+
+/-- canonical key order, recursively -/
+partial def sortKeys : Json → Json
+  | .arr xs => .arr (xs.map sortKeys)
+  | .obj kvs => .obj ((kvs.map fun kv => (kv.1, sortKeys kv.2)).mergeSort fun a b => !strLt b.1 a.1)
+  | j => j
+
+partial def jsonEq : Json → Json → Bool
+  | .null, .null => true
+  | .bool a, .bool b => a == b
+  | .num a, .num b => a == b
+  | .flt a, .flt b => a == b
+  | .str a, .str b => a == b
+  | .arr a, .arr b => a.length == b.length && (a.zip b).all fun p => jsonEq p.1 p.2
+  | .obj a, .obj b => a.length == b.length && (a.zip b).all fun p => p.1.1 == p.2.1 && jsonEq p.1.2 p.2.2
+  | _, _ => false
+
+def parseJson (b : ByteArray) : Except Err Json :=
+  match String.fromUTF8? b with
+  | none => .error .serde
+  | some t =>
+    match Lean.Json.parse t with
+    | .ok j => .ok (ofLean j)
+    | .error _ => .error .serde
+
+/-- the text layer of `Signature::from_reader`: niffler needs 5 bytes to sniff; then the JSON parser -/
+def parseText (hexText : String) : Except Err Json :=
+  let b := unhexBytes hexText
+  if b.size < 5 then .error .niffler else parseJson b
+
+/-- what `from_reader(save(sigs))` does below the text layer: `[]` is 2 bytes -/
+def reload (sigs : List Signature) : Except Err (List Signature) :=
+  if sigs.isEmpty then .error .niffler else fromJson (toJson sigs)
+
+def showView (v : List (List (Option SigFormat.SketchView))) : String :=
+  if v.isEmpty then "-" else "+".intercalate (v.map fun sks =>
+    if sks.isEmpty then "-" else "|".intercalate (sks.map fun
+      | none => "h"
+      | some (k, mins, ab) => s!"{k}:{showNats mins}:" ++ (match ab with | none => "~" | some a => showNats a)))
+
+def viewOf (l : List Signature) : List (List (Option SigFormat.SketchView)) :=
+  l.map fun s => s.sketches.map fun
+    | .vec m | .tree m => some (m.ksize, m.mins, m.abunds)
+    | .hll .. => none
+
+/-- the states the property quantifies over: a sketch is a num sketch or a scaled sketch, hashes strictly
+    increasing with aligned abundances (C01), one of the four hash functions -/
+def inScope (l : List Signature) : Bool :=
+  l.all fun s => s.sketches.all fun
+    | .vec m | .tree m =>
+      (m.mins.zip (m.mins.drop 1)).all (fun p => p.1 < p.2) &&
+      (match m.abunds with | none => true | some a => a.length == m.mins.length)
+    | .hll .. => true
+
+def molArg (s : String) : Option Mol :=
+  if s == "any" then none else
+  match molOfString (toStr s) with
+  | .ok m => some m
+  | .error _ => none
+
+def showSk : Except Err MinHash → (MinHash → Sketch) → String
+  | .ok m, f => showSketch false (f m)
+  | .error e, _ => showErr e
+
+end C06
+open C06
 
 def stepC06 (s : Unit) (ws : List String) : Unit × Resp :=
   match ws with
   | "case" :: _ => (s, { model := "ok" })
+  | ["save", spec, text] =>
+    let sigs := listOf spec
+    match parseJson (unhexBytes text) with
+    | .ok j =>
+      (s, { model := if jsonEq (sortKeys j) (sortKeys (toJson sigs)) then "same" else "differs",
+            spec := if SigFormat.describes j sigs then "same" else "not-described" })
+    | .error _ => (s, { model := "unparsable", spec := "same" })
+  | ["roundtrip", spec] =>
+    let sigs := listOf spec
+    (s, { model := showRes true (reload sigs),
+          spec := if sigs.isEmpty || !inScope sigs then "-" else showList true sigs })
+  | ["rtypes", spec] =>
+    let r := match reload (listOf spec) with
+      | .ok l =>
+        if l.isEmpty then "-" else "+".intercalate (l.map fun g =>
+          if g.sketches.isEmpty then "-" else String.ofList (g.sketches.map fun
+          | .vec _ => 'v' | .tree _ => 't' | .hll .. => 'h'))
+      | .error e => showErr e
+    (s, { model := r })
+  | ["gz", level, spec] =>
+    let sigs := listOf spec
+    let lv := level.toNat!
+    -- level 0 writes the plain text (`[]` cannot be sniffed); any other level writes gzip, which can
+    let back := if lv == 0 then reload sigs else fromJson (toJson sigs)
+    let pre := if lv == 0 then "plain eq " else "gz eq "
+    (s, { model := pre ++ showRes true back,
+          spec := if (sigs.isEmpty && lv == 0) || !inScope sigs then "-" else pre ++ showList true sigs })
+  | ["load", text] | ["file", _, text] =>
+    let r := match parseText text with
+      | .ok j => fromJson j
+      | .error e => .error e
+    (s, { model := showRes false r })
+  | ["legacy", text] | ["filefmt", _, text] =>
+    match parseText text with
+    | .ok j =>
+      match fromJson j with
+      | .ok l =>
+        (s, { model := showView (viewOf l),
+              spec := match SigFormat.legacyView j with
+                | some v => showView v
+                | none => "-" })
+      | .error e => (s, { model := showErr e })
+    | .error e => (s, { model := showErr e })
+  | ["filter", k, mol, spec] =>
+    let sigs := listOf spec
+    let ko := if k.toNat! == 0 then none else some k.toNat!
+    let mo := molArg mol
+    let r := if sigs.isEmpty then .error .niffler else loadSignatures ko mo (toJson sigs)
+    (s, { model := showRes true r,
+          spec := if sigs.isEmpty || SigFormat.hasHll sigs || !inScope sigs then "-"
+                  else showList true (SigFormat.filterSpec ko mo sigs) })
+  | ["loadvec", text] =>
+    let r := match parseText text with
+      | .ok j => fromJsonVec j
+      | .error _ => .error .serde
+    (s, { model := showSk r .vec })
+  | ["loadtree", text] =>
+    let r := match parseText text with
+      | .ok j => fromJsonTree j
+      | .error _ => .error .serde
+    (s, { model := showSk r .tree })
   | _ => (s, { model := "bad-op" })
 
 def main : IO Unit := Driver.run () stepC06
